@@ -129,6 +129,6 @@ EXPORT errno_t _wcscmp_s_chk(const wchar_t *restrict dest, rsize_t dmax,
         smax--;
     }
 
-    *resultp = *dest - *src;
+    *resultp = (dmax && smax) ? *dest - *src : 0;
     return RCNEGATE(EOK);
 }
